@@ -1,5 +1,6 @@
 import Driver.Proto
 import SpsdkVerif.Model.Keys
+import SpsdkVerif.Model.KeysGlue
 open SpsdkVerif Driver
 open SpsdkVerif.Keys SpsdkVerif.Misc
 
@@ -32,6 +33,88 @@ def parseExt (der pem onc rsaok otps : String) : Option Ext :=
   match parsePubOpt der, parsePubOpt pem, parseBool onc, parseBool rsaok, parsePubOpt otps with
   | some d, some p, some o, some r, some t => some ⟨d, p, fun _ _ _ => o, fun _ _ => r, t⟩
   | _, _, _, _, _ => none
+
+def parseTry (s : String) : Option (Try String) :=
+  if s == "spsdk" then some .spsdk else if s == "other" then some .other
+  else if s.startsWith "ok:" then some (.ok (s.drop 3).toString) else none
+
+def parsePVal (s : String) : Option PVal :=
+  if s.startsWith "s:" then some (.str (s.drop 2).toString)
+  else if s == "b:1" then some (.bool true) else if s == "b:0" then some (.bool false) else none
+
+/-- `key=s:value` / `key=b:1` -/
+def parseParam (s : String) : Option (String × PVal) :=
+  match s.splitOn "=" with
+  | k :: rest => (parsePVal ("=".intercalate rest)).map (fun v => (k, v))
+  | _ => none
+
+def pvalStr : PVal → String
+  | .str s => "s:" ++ s
+  | .bool b => if b then "b:1" else "b:0"
+
+def rawKeyStr : RawKey → String
+  | .priv c d => s!"priv:{c.name}:{d}"
+  | .pub c x y => s!"pub:{c.name}:{x}:{y}"
+
+def stepGlue : List String → Option String
+  | "first_accept" :: ts =>
+    match ts.mapM parseTry with
+    | some l => some (resLine id (firstAccept l)) | none => some "bad-op"
+  | ["matching_key", bits] =>
+    some (resLine toString (matchingKeyId (if bits == "-" then [] else bits.toList.map (· == '1'))))
+  | ["cert_parse", h, derLen, pemOk] =>
+    match parseHex h, parseNat derLen, parseBool pemOk with
+    | some b, some L, some po =>
+      let load : Bytes → LoadRes String := fun d =>
+        if L = 0 then .fail else if d.length = L then .ok "cert" else if d.length > L then .extraData else .fail
+      some (resLine id (certParse (fun _ => if po then some "cert" else none) load b))
+    | _, _, _ => some "bad-op"
+  | ["cert_export_nxp", h] =>
+    match parseHex h with
+    | some b => some s!"ok:{toHex (certExportNxp b)},{certRawSize b}" | none => some "bad-op"
+  | ["validate_chain", n, bits] =>
+    match parseNat n with
+    | some n =>
+      let m := bits.toList.map (· == '1')
+      some (resLine (fun r => String.ofList (r.map (fun b => if b then '1' else '0')))
+        (validateChain (fun i j => m.getD (i * n + j) false) (List.range n)))
+    | none => some "bad-op"
+  | ["cert_call", alg] =>
+    let a : Option CertAlg := if alg == "rsa_v15" then some .rsaV15 else if alg == "rsa_pss" then some .rsaPss
+      else if alg == "ecdsa" then some .ecdsa else none
+    match a with
+    | some a => some s!"ok:{boolStr (certValidateCall a "h").pss}" | none => some "bad-op"
+  | "sp_create" :: ps =>
+    match ps.mapM parseParam with
+    | some l =>
+      let kw := plainFileSignKwargs l
+      some ("ok:" ++ ",".intercalate (kw.map (fun p => p.1 ++ "=" ++ pvalStr p.2)) ++ ";" ++ boolStr (createdUsesPss l))
+    | none => some "bad-op"
+  | "sp_local" :: ps =>
+    match ps.mapM parseParam with
+    | some l => some ("ok:" ++ boolStr (localFileUsesPss l)) | none => some "bad-op"
+  | ["sig_len", "rsa", ks] => match parseNat ks with | some ks => some s!"ok:{rsaSigLen ks}" | none => some "bad-op"
+  | ["sig_len", "ecc", c] => match Curve.ofName c with | some c => some s!"ok:{eccSigLen c}" | none => some "bad-op"
+  | ["key_len_curve", n] =>
+    match parseNat n with
+    | some n => some (match Generated.KeysTables.keyLenCurve n with | some c => "ok:" ++ c | none => "E:spsdk")
+    | none => some "bad-op"
+  | ["hash_from_sig_size", n] =>
+    match parseNat n with
+    | some n => some (match Generated.KeysTables.hashFromSigSize.lookup n with | some h => "ok:" ++ h | none => "E:spsdk")
+    | none => some "bad-op"
+  | ["reconstruct_key", t1, t2, h, pk, oc] =>
+    match parseTry t1, parseTry t2, parseHex h, parseBool pk, parseBool oc with
+    | some t1, some t2, some b, some pk, some oc =>
+      let raw : PyRes String := match reconstructRaw (fun _ _ => pk) (fun _ _ _ => oc) b with
+        | .ok k => .ok (rawKeyStr k) | .error e => .error e
+      some (resLine id (reconstructKey t1 t2 raw))
+    | _, _, _, _, _ => some "bad-op"
+  | ["reconstruct_raw", h, pk, oc] =>
+    match parseHex h, parseBool pk, parseBool oc with
+    | some b, some pk, some oc => some (resLine rawKeyStr (reconstructRaw (fun _ _ => pk) (fun _ _ _ => oc) b))
+    | _, _, _ => some "bad-op"
+  | _ => none
 
 def step : List String → String
   | ["derenc", r, s] => match parseNat r, parseNat s with
@@ -80,4 +163,4 @@ def step : List String → String
     | _, _ => "bad-op"
   | _ => "bad-op"
 
-def main : IO Unit := Driver.loop step
+def main : IO Unit := Driver.loop (fun ts => match stepGlue ts with | some r => r | none => step ts)
